@@ -32,7 +32,14 @@ def _rect(r):
 def op_netlist(op):
     from frame.netlist.netlist import Netlist
     from fv import netutil as nu
-    n = Netlist(op["doc"])
+    src = op["doc"]
+    if op.get("as_text"):
+        # through the YAML reader (block or flow text; an older document may carry a '%YAML 1.1' directive)
+        from fv.gen import netlists as gn
+        src = gn.doc_text(src, flow=(op["as_text"] == "flow"))
+        if op.get("directive"):
+            src = "%YAML " + op["directive"] + "\n---\n" + src
+    n = Netlist(src)
     s = nu.summary(n)
     for m in s["modules"]:
         order = sorted(range(len(m["rectangles"])), key=lambda k: m["rectangles"][k])
